@@ -319,7 +319,7 @@ def execute(plan):
     # one violation per key per run
     seen, uniq = set(), []
     for v in violations:
-        k = json.dumps(v["key"], sort_keys=True)
+        k = v["property"] + json.dumps(v["key"], sort_keys=True)
         if k not in seen:
             seen.add(k)
             uniq.append(v)
